@@ -447,7 +447,7 @@ def opClient (line : String) : String :=
       let w := match w.conn with
         | some c => dropConn w c
         | none => w
-      let logs := w.logs.zipIdx.map fun (l, k) => s!"c{k}:" ++ ",".intercalate l
+      let logs := w.logs.zipIdx.map fun (l, k) => s!"c{k}:" ++ ",".intercalate (l.map LogE.show)
       " | ".intercalate res ++ " || " ++ " | ".intercalate logs
     | _, _ => "bad-op"
   | _ => "bad-op"
